@@ -519,18 +519,31 @@ func storesIntoParam(p *Prog, fn *ssa.Function, root ssa.Value, depth int) strin
 	}
 	var derives func(v ssa.Value, seen map[ssa.Value]bool) bool
 	// walk follows an address/value expression down to its base; derefs
-	// counts the loads passed on the way.
-	walk := func(v ssa.Value) (base ssa.Value, derefs int) {
+	// counts the loads passed on the way; path is the field path between
+	// the base and the load nearest to it (nil when it is not a pure field
+	// path), and load that load.
+	type walked struct {
+		base   ssa.Value
+		derefs int
+		path   []int
+		pure   bool
+		load   *ssa.UnOp
+	}
+	walk := func(v ssa.Value) walked {
+		w := walked{pure: true}
 		cur := v
 		for {
 			switch y := cur.(type) {
 			case *ssa.FieldAddr:
+				w.path = append(w.path, y.Field)
 				cur = y.X
 				continue
 			case *ssa.IndexAddr:
+				w.pure = false
 				cur = y.X
 				continue
 			case *ssa.Field:
+				w.path = append(w.path, y.Field)
 				cur = y.X
 				continue
 			case *ssa.Slice:
@@ -539,23 +552,91 @@ func storesIntoParam(p *Prog, fn *ssa.Function, root ssa.Value, depth int) strin
 			case *ssa.ChangeType:
 				cur = y.X
 				continue
+			case *ssa.Call:
+				// append(base, ...) may return base's storage
+				if bi, ok := y.Call.Value.(*ssa.Builtin); ok && bi.Name() == "append" && len(y.Call.Args) > 0 {
+					cur = y.Call.Args[0]
+					continue
+				}
 			case *ssa.UnOp:
 				if y.Op == token.MUL {
-					derefs++
+					w.derefs++
+					w.path, w.pure, w.load = nil, true, y
 					cur = y.X
 					continue
 				}
 			}
-			return cur, derefs
+			w.base = cur
+			return w
 		}
 	}
-	allocInitDerives := func(a *ssa.Alloc, seen map[ssa.Value]bool) bool {
+	samePath := func(a, b []int) bool {
+		if len(a) != len(b) {
+			return false
+		}
+		for i := range a {
+			if a[i] != b[i] {
+				return false
+			}
+		}
+		return true
+	}
+	// allocShares: memory loaded from the local variable a at field path
+	// (by the load instruction) is storage reachable from root. A store to
+	// the same field that dominates the load replaces the copied value.
+	allocShares := func(a *ssa.Alloc, path []int, pure bool, load *ssa.UnOp, seen map[ssa.Value]bool) bool {
 		rr := a.Referrers()
 		if rr == nil {
 			return false
 		}
+		type fst struct {
+			st *ssa.Store
+		}
+		var overwrites []*ssa.Store
+		if pure && load != nil && len(path) > 0 {
+			for _, blk := range a.Parent().Blocks {
+				for _, in := range blk.Instrs {
+					st, ok := in.(*ssa.Store)
+					if !ok {
+						continue
+					}
+					// address is a pure field path on a
+					var sp []int
+					cur := st.Addr
+					okp := true
+					for {
+						if fa, isFA := cur.(*ssa.FieldAddr); isFA {
+							sp = append(sp, fa.Field)
+							cur = fa.X
+							continue
+						}
+						break
+					}
+					if cur != ssa.Value(a) || !okp || !samePath(sp, path) {
+						continue
+					}
+					overwrites = append(overwrites, st)
+				}
+			}
+		}
+		for _, st := range overwrites {
+			if dominatesInstr(st, load) {
+				// the loaded value is what was stored here (or by a later overwrite)
+				for _, o := range overwrites {
+					if derives(o.Val, seen) {
+						return true
+					}
+				}
+				return false
+			}
+		}
 		for _, u := range *rr {
 			if st, ok := u.(*ssa.Store); ok && st.Addr == ssa.Value(a) && derives(st.Val, seen) {
+				return true
+			}
+		}
+		for _, o := range overwrites {
+			if derives(o.Val, seen) {
 				return true
 			}
 		}
@@ -566,13 +647,13 @@ func storesIntoParam(p *Prog, fn *ssa.Function, root ssa.Value, depth int) strin
 			return false
 		}
 		seen[v] = true
-		base, _ := walk(v)
-		if base == root {
+		w := walk(v)
+		if w.base == root {
 			return true
 		}
-		switch b := base.(type) {
+		switch b := w.base.(type) {
 		case *ssa.Alloc:
-			return allocInitDerives(b, seen)
+			return allocShares(b, w.path, w.pure, w.load, seen)
 		case *ssa.Phi:
 			for _, e := range b.Edges {
 				if derives(e, seen) {
@@ -584,21 +665,20 @@ func storesIntoParam(p *Prog, fn *ssa.Function, root ssa.Value, depth int) strin
 	}
 	// writesShared: a store through addr writes memory reachable from root
 	writesShared := func(addr ssa.Value) bool {
-		base, derefs := walk(addr)
-		if base == root {
-			// root is a pointer (or a struct value whose reference fields were dereferenced)
+		w := walk(addr)
+		if w.base == root {
 			switch root.Type().Underlying().(type) {
 			case *types.Pointer, *types.Slice, *types.Map:
 				return true
 			}
-			return derefs > 0
+			return w.derefs > 0
 		}
-		switch b := base.(type) {
+		switch b := w.base.(type) {
 		case *ssa.Alloc:
-			if derefs == 0 {
+			if w.derefs == 0 {
 				return false // the local variable itself
 			}
-			return allocInitDerives(b, map[ssa.Value]bool{})
+			return allocShares(b, w.path, w.pure, w.load, map[ssa.Value]bool{})
 		case *ssa.Phi:
 			return derives(b, map[ssa.Value]bool{})
 		}
